@@ -27,7 +27,7 @@ CUR = {'ctx': None, 'case': None}
 
 
 def shards(tier, seed):
-    per = 200 if tier == 'quick' else 1600
+    per = 200 if tier == 'quick' else 12000
     budget = 45 if tier == 'quick' else 540
     return [{'kind': 'random', 'count': per, 'budget_s': budget} for _ in range(16)]
 
